@@ -55,21 +55,27 @@ IsQ(x) == x[2] > 0 /\ (x[1] = 0 => x[2] = 1) /\ (x[1] # 0 => GcdI(AbsI(x[1]), x[
 (***************************************************************************)
 (* Part 2 - vectors and matrices                                           *)
 (***************************************************************************)
-VSub(v, I) == [i \in I |-> v[i]]
-VAdd(u, v, I) == [i \in I |-> QAdd(u[i], v[i])]
-VMinus(u, v, I) == [i \in I |-> QSub(u[i], v[i])]
+\* constructors that force TLC to evaluate every entry exactly once (TLC would otherwise keep the function lazy and
+\* re-evaluate an entry at every application)
+Vec(I, f(_)) == TLCEval([i \in I |-> f(i)])
+Mat(I, J, f(_, _)) == TLCEval([i \in I |-> TLCEval([j \in J |-> f(i, j)])])
+\* Bind(v, F) = F(v) with v evaluated once
+Bind(v, F(_)) == CHOOSE r \in {F(x) : x \in {v}} : TRUE
+VSub(v, I) == Vec(I, LAMBDA i : v[i])
+VAdd(u, v, I) == Vec(I, LAMBDA i : QAdd(u[i], v[i]))
+VMinus(u, v, I) == Vec(I, LAMBDA i : QSub(u[i], v[i]))
 Dot(u, v, K) == QSum(K, LAMBDA k : QMul(u[k], v[k]))
-MSub(M, I, J) == [i \in I |-> [j \in J |-> M[i][j]]]
-MAdd(A, B, I, J) == [i \in I |-> [j \in J |-> QAdd(A[i][j], B[i][j])]]
-MMinus(A, B, I, J) == [i \in I |-> [j \in J |-> QSub(A[i][j], B[i][j])]]
-MMul(A, B, I, K, J) == [i \in I |-> [j \in J |-> QSum(K, LAMBDA k : QMul(A[i][k], B[k][j]))]]
-MVec(A, v, I, K) == [i \in I |-> QSum(K, LAMBDA k : QMul(A[i][k], v[k]))]
-MT(A, I, J) == [j \in J |-> [i \in I |-> A[i][j]]]                \* transpose of an I x J matrix
-MId(S) == [i \in S |-> [j \in S |-> IF i = j THEN Q1 ELSE QZ]]
-MScale(A, c, I, J) == [i \in I |-> [j \in J |-> QMul(c, A[i][j])]]
+MSub(M, I, J) == Mat(I, J, LAMBDA i, j : M[i][j])
+MAdd(A, B, I, J) == Mat(I, J, LAMBDA i, j : QAdd(A[i][j], B[i][j]))
+MMinus(A, B, I, J) == Mat(I, J, LAMBDA i, j : QSub(A[i][j], B[i][j]))
+MMul(A, B, I, K, J) == Mat(I, J, LAMBDA i, j : QSum(K, LAMBDA k : QMul(A[i][k], B[k][j])))
+MVec(A, v, I, K) == Vec(I, LAMBDA i : QSum(K, LAMBDA k : QMul(A[i][k], v[k])))
+MT(A, I, J) == Mat(J, I, LAMBDA j, i : A[i][j])                \* transpose of an I x J matrix
+MId(S) == Mat(S, S, LAMBDA i, j : IF i = j THEN Q1 ELSE QZ)
+MScale(A, c, I, J) == Mat(I, J, LAMBDA i, j : QMul(c, A[i][j]))
 \* matrix over S extended by zeros to T (scope extension of canonical forms)
-MExt(A, S, T) == [i \in T |-> [j \in T |-> IF i \in S /\ j \in S THEN A[i][j] ELSE QZ]]
-VExt(v, S, T) == [i \in T |-> IF i \in S THEN v[i] ELSE QZ]
+MExt(A, S, T) == Mat(T, T, LAMBDA i, j : IF i \in S /\ j \in S THEN A[i][j] ELSE QZ)
+VExt(v, S, T) == Vec(T, LAMBDA i : IF i \in S THEN v[i] ELSE QZ)
 Symmetric(A, S) == \A i, j \in S : A[i][j] = A[j][i]
 QuadForm(x, A, S) == QSum(S, LAMBDA i : QMul(x[i], Dot(A[i], x, S)))          \* x' A x
 
@@ -92,12 +98,12 @@ Det(M, rs, cs) ==
                     QZ, 1..Len(cs))
 DetOf(M, ord) == Det(M, ord, ord)
 \* inverse = adjugate / determinant (ord enumerates the index set; determinant must be non-zero)
-Inverse(M, ord) ==
-    LET d == Det(M, ord, ord)
-        S == SeqSet(ord)
-    IN [i \in S |-> [j \in S |->
+MInv(M, ord) ==
+    LET S == SeqSet(ord) IN
+    Bind(QInv(Det(M, ord, ord)), LAMBDA di :
+        Mat(S, S, LAMBDA i, j :
             LET c == Det(M, Without(ord, j), Without(ord, i)) IN
-            QDiv(IF (PosIn(ord, i) + PosIn(ord, j)) % 2 = 0 THEN c ELSE QNeg(c), d)]]
+            IF (PosIn(ord, i) + PosIn(ord, j)) % 2 = 0 THEN QMul(c, di) ELSE QNeg(QMul(c, di))))
 \* Sylvester's criterion
 PosDef(M, ord) == /\ Symmetric(M, SeqSet(ord))
                   /\ \A k \in 1..Len(ord) : QPos(Det(M, SubSeq(ord, 1, k), SubSeq(ord, 1, k)))
@@ -115,17 +121,17 @@ PaOf(E, v) == {e[1] : e \in {f \in E : f[2] = v}}
 RECURSIVE DescOf(_, _)
 DescOf(E, S) == LET T == S \cup {e[2] : e \in {f \in E : f[1] \in S}} IN IF T = S THEN S ELSE DescOf(E, T)
 \* B[parent][child]
-BMat(N, E, w) == [p \in N |-> [c \in N |-> IF <<p, c>> \in E THEN w[c][p] ELSE QZ]]
+BMat(N, E, w) == Mat(N, N, LAMBDA p, c : IF <<p, c>> \in E THEN w[c][p] ELSE QZ)
 \* (I - B)^-1 = I + B + ... + B^(n-1) because B is nilpotent on a DAG
 RECURSIVE NilIter(_, _, _, _)
 NilIter(N, B, T, k) == IF k = 0 THEN T ELSE NilIter(N, B, MAdd(MId(N), MMul(B, T, N, N, N), N, N), k - 1)
 NilInv(N, B) == NilIter(N, B, MId(N), Cardinality(N) - 1)
 \* Sigma = (I-B)^-T Omega (I-B)^-1 with T = (I-B)^-1
-CovOf(N, T, var) == [i \in N |-> [j \in N |-> QSum(N, LAMBDA k : QMul(QMul(T[k][i], var[k]), T[k][j]))]]
+CovOf(N, T, var) == Mat(N, N, LAMBDA i, j : QSum(N, LAMBDA k : QMul(QMul(T[k][i], var[k]), T[k][j])))
 \* mean by recursive substitution
 RECURSIVE MeanRec(_, _, _, _)
 MeanRec(E, w, b0, v) == QAdd(b0[v], QSum(PaOf(E, v), LAMBDA p : QMul(w[v][p], MeanRec(E, w, b0, p))))
-MeanOf(N, E, w, b0) == [v \in N |-> MeanRec(E, w, b0, v)]
+MeanOf(N, E, w, b0) == Vec(N, LAMBDA v : MeanRec(E, w, b0, v))
 \* covariance by recursive substitution in the structural equations: expand a node that is not an ancestor of the other
 RECURSIVE CovRec(_, _, _, _, _)
 CovRec(E, w, var, u, v) ==
@@ -136,15 +142,15 @@ CovRec(E, w, var, u, v) ==
          ELSE QSum(PaOf(E, u), LAMBDA p : QMul(w[u][p], CovRec(E, w, var, p, v)))
 \* information form of the same joint: K = (I-B) Omega^-1 (I-B)^T
 PrecOf(N, B, var) ==
-    LET IB == MMinus(MId(N), B, N, N) IN
-    [i \in N |-> [j \in N |-> QSum(N, LAMBDA k : QMul(QDiv(IB[i][k], var[k]), IB[j][k]))]]
+    Bind(MMinus(MId(N), B, N, N), LAMBDA IB :
+        Mat(N, N, LAMBDA i, j : QSum(N, LAMBDA k : QMul(QDiv(IB[i][k], var[k]), IB[j][k]))))
 
 (***************************************************************************)
 (* Part 4 - Gaussian conditioning (A given O = x)                          *)
 (***************************************************************************)
-CondW(cov, A, ordO) == LET O == SeqSet(ordO) IN MMul(MSub(cov, A, O), Inverse(MSub(cov, O, O), ordO), A, O, O)
-CondMean(mu, W, A, O, x) == [a \in A |-> QAdd(mu[a], QSum(O, LAMBDA o : QMul(W[a][o], QSub(x[o], mu[o]))))]
-CondCov(cov, W, A, O) == [a \in A |-> [b \in A |-> QSub(cov[a][b], QSum(O, LAMBDA o : QMul(W[a][o], cov[o][b])))]]
+CondW(cov, A, ordO) == LET O == SeqSet(ordO) IN MMul(MSub(cov, A, O), MInv(MSub(cov, O, O), ordO), A, O, O)
+CondMean(mu, W, A, O, x) == Vec(A, LAMBDA a : QAdd(mu[a], QSum(O, LAMBDA o : QMul(W[a][o], QSub(x[o], mu[o])))))
+CondCov(cov, W, A, O) == Mat(A, A, LAMBDA a, b : QSub(cov[a][b], QSum(O, LAMBDA o : QMul(W[a][o], cov[o][b]))))
 
 (***************************************************************************)
 (* Part 5 - least squares.  data: sequence of rows (name -> rational);     *)
@@ -153,10 +159,10 @@ CondCov(cov, W, A, O) == [a \in A |-> [b \in A |-> QSub(cov[a][b], QSum(O, LAMBD
 (***************************************************************************)
 One == "_1"
 XVal(row, c) == IF c = One THEN Q1 ELSE row[c]
-Gram(data, C) == [c \in C |-> [d \in C |-> QSum(1..Len(data), LAMBDA i : QMul(XVal(data[i], c), XVal(data[i], d)))]]
-XtY(data, C, y) == [c \in C |-> QSum(1..Len(data), LAMBDA i : QMul(XVal(data[i], c), data[i][y]))]
+Gram(data, C) == Mat(C, C, LAMBDA c, d : QSum(1..Len(data), LAMBDA i : QMul(XVal(data[i], c), XVal(data[i], d))))
+XtY(data, C, y) == Vec(C, LAMBDA c : QSum(1..Len(data), LAMBDA i : QMul(XVal(data[i], c), data[i][y])))
 FullRank(data, y, ps) == Det(Gram(data, {One} \cup SeqSet(ps)), <<One>> \o ps, <<One>> \o ps)[1] # 0
-Beta(data, y, ps) == LET C == {One} \cup SeqSet(ps) IN MVec(Inverse(Gram(data, C), <<One>> \o ps), XtY(data, C, y), C, C)
+Beta(data, y, ps) == LET C == {One} \cup SeqSet(ps) IN MVec(MInv(Gram(data, C), <<One>> \o ps), XtY(data, C, y), C, C)
 Resid(data, y, C, beta, i) == QSub(data[i][y], QSum(C, LAMBDA c : QMul(beta[c], XVal(data[i], c))))
 \* residual sum of squares; r'r = r'y because the residual is orthogonal to every column (lemma NormalEquations)
 RSS(data, y, C, beta) == QSum(1..Len(data), LAMBDA i : QMul(Resid(data, y, C, beta, i), data[i][y]))
@@ -181,24 +187,24 @@ GReduce(G, ord, y) ==                \* y : function on the reduced variables
     IN [S |-> R, mu |-> CondMean(G.mu, W, R, O, y), cov |-> CondCov(G.cov, W, R, O)]
 ToCanon(G, ord) ==
     LET o == OrdOf(ord, G.S)
-        K == Inverse(G.cov, o)
+        K == MInv(G.cov, o)
         h == MVec(K, G.mu, G.S, G.S)
     IN [S |-> G.S, K |-> K, h |-> h,
-        g |-> Sym(QNeg(QHalf(Dot(G.mu, h, G.S))), <<0 - Cardinality(G.S), 2>>, DetOf(G.cov, o))]
+        g |-> Sym(QNeg(QHalf(Dot(G.mu, h, G.S))), Q(0 - Cardinality(G.S), 2), DetOf(G.cov, o))]
 CToJoint(C, ord) ==
-    LET cov == Inverse(C.K, OrdOf(ord, C.S)) IN [S |-> C.S, mu |-> MVec(cov, C.h, C.S, C.S), cov |-> cov]
+    LET cov == MInv(C.K, OrdOf(ord, C.S)) IN [S |-> C.S, mu |-> MVec(cov, C.h, C.S, C.S), cov |-> cov]
 \* integrate out Y = V  (Koller & Friedman eq. 14.6)
 CMarg(C, ord, V) ==
     LET X == C.S \ V
         oY == OrdOf(ord, V)
-        KYYi == Inverse(MSub(C.K, V, V), oY)
+        KYYi == MInv(MSub(C.K, V, V), oY)
         KXY == MSub(C.K, X, V)
         M == MMul(KXY, KYYi, X, V, V)
         hY == VSub(C.h, V)
     IN [S |-> X,
         K |-> MMinus(MSub(C.K, X, X), MMul(M, MSub(C.K, V, X), X, V, X), X, X),
         h |-> VMinus(VSub(C.h, X), MVec(M, hY, X, V), X),
-        g |-> SymAdd(C.g, Sym(QHalf(QuadForm(hY, KYYi, V)), <<Cardinality(V), 2>>, DetOf(MSub(C.K, V, V), oY)))]
+        g |-> SymAdd(C.g, Sym(QHalf(QuadForm(hY, KYYi, V)), Q(Cardinality(V), 2), DetOf(MSub(C.K, V, V), oY)))]
 \* set Y = y
 CReduce(C, y) ==
     LET V == DOMAIN y
